@@ -18,7 +18,7 @@ from . import thread_sched as ts
 # preemption points: every source line of the storage layer AND of the standard library's copy module, because the storages
 # hand out snapshots through copy.copy / copy.deepcopy and a copy running outside the lock is interruptible element by element
 FILES = ("optuna/storages/_in_memory.py", "optuna/storages/journal/_storage.py", "optuna/storages/_cached_storage.py",
-         "optuna/storages/_base.py")
+         "optuna/storages/_base.py", "optuna/storages/_grpc/client.py", "optuna/storages/_grpc/servicer.py")
 FILES_COPY = FILES + ("/copy.py",)      # used for the snapshot-reader x multi-write pairs (mode "dense")
 
 DF0 = {"c": "float", "g": 0, "k": 0}
@@ -125,6 +125,62 @@ def make_storages(kind, sched):
             shutil.rmtree(wd, ignore_errors=True)
         _CLOSERS.append(close)
         return [s, s, s], obs
+    if kind in ("grpc_stub_inmemory", "grpc_stub_journal"):
+        # H5(b): a socket-free proxy.  The client's stub calls the REAL servicer method in the calling thread, so client
+        # cache, servicer and backend all run under the line-level scheduler (a real server would run them on its own threads)
+        import grpc
+        from optuna.storages import GrpcStorageProxy
+        from optuna.storages._grpc import client as gc
+        from optuna.storages._grpc import servicer as gs
+
+        if kind == "grpc_stub_inmemory":
+            backend = InMemoryStorage()
+        else:
+            from .c06 import _backends as _b
+
+            backend = JournalStorage(_b()[0]())
+        ts.patch_locks(sched, backend)
+        service = gs.OptunaStorageProxyService(backend)
+        ts.patch_locks(sched, service)
+
+        class Abort(grpc.RpcError):
+            def __init__(self, code, details):
+                super().__init__(details)
+                self._code, self._details = code, details
+
+            def code(self):
+                return self._code
+
+            def details(self):
+                return self._details
+
+        class Ctx:
+            def abort(self, code, details=""):
+                raise Abort(code, details)
+
+        class Stub:
+            def __getattr__(self, name):
+                method = getattr(service, name)
+
+                def call(request, *a, **k):
+                    try:
+                        return method(request, Ctx())
+                    except Abort:
+                        raise
+                    except Exception as e:   # an exception class the servicer does not map reaches the client as UNKNOWN
+                        raise Abort(grpc.StatusCode.UNKNOWN, f"Exception calling application: {type(e).__name__}: {e}")
+                return call
+
+        def proxy():
+            p_ = GrpcStorageProxy.__new__(GrpcStorageProxy)
+            p_._stub = Stub()
+            p_._cache = gc.GrpcClientCache(p_._stub)
+            p_._host, p_._port = "stub", 0
+            ts.patch_locks(sched, p_._cache)
+            ts.patch_locks(sched, p_)
+            return p_
+        shared = proxy()
+        return [shared, shared, proxy()], backend
     from .c06 import _backends
 
     ListBackend, _ = _backends()
@@ -518,7 +574,7 @@ def judge(ctx, traces, label):
     return v
 
 
-KINDS = ["inmemory", "journal_threads", "journal_procs", "cached_rdb_threads"]
+KINDS = ["inmemory", "journal_threads", "journal_procs", "cached_rdb_threads", "grpc_stub_inmemory", "grpc_stub_journal"]
 
 
 def run(ctx):
@@ -541,7 +597,7 @@ def run(ctx):
     for kind in KINDS:
         for ia in range(n_al):
             for ib in range(n_al):
-                if ctx.quick and (ia * 7 + ib * 3 + ctx.seed) % (12 if kind == "cached_rdb_threads" else 6) != 0:
+                if ctx.quick and (ia * 7 + ib * 3 + ctx.seed) % (12 if kind == "cached_rdb_threads" else 8) != 0:
                     continue
                 tasks.append((kind, ia, ib, "sample" if ctx.quick else "all"))
         for ia, ib in priority_pairs(kind):
